@@ -1278,6 +1278,12 @@ class ConnectionBase(object):
             # if inserting dropped unacked bits then those packets will time out
             # the user may want to know to slow down the sending rate
             # and/or the protocol may want to back off.
+            # a datagram older than the receive window cannot be told apart
+            # from a replay of one that was already received: drop it
+            # (retransmitted messages always travel in a fresh datagram)
+            newest = self.bitfield_pkt.current_seqnum
+            if newest != 0 and newest.diff(pkt.hdr.seq) > self.bitfield_pkt.nbits:
+                raise DuplicationError("stale datagram: %d" % pkt.hdr.seq)
             self.bitfield_pkt.insert(pkt.hdr.seq)
         except DuplicationError:
             self.stats.dropped += 1
